@@ -291,8 +291,18 @@ def check_cli_case(ctx, rng, index):
         try:
             for obs in (False, True):
                 out = os.path.join(ctx.workdir, 'q{}_{}_{}.out'.format(index, kind.replace('+', '_'), int(obs)))
-                argv = ['simulate', 'recession', db, pfile, '-o', out] + (['--observations'] if obs else [])
-                status, exc = data.cli(argv)
+                argv = ['simulate', 'recession', db, pfile] + (['--observations'] if obs else [])
+                if index % 4 == 1:
+                    argv = argv[:1] + ['-vv', '--logfile', os.path.join(ctx.workdir, 'q{}.log'.format(index))] + argv[1:]
+                if (index + int(obs)) % 3 == 0:
+                    import io
+                    buf = io.StringIO()  # the default: output on standard output
+                    status, exc = data.cli(argv, stdout=buf)
+                    with open(out, 'w') as f:
+                        f.write(buf.getvalue())
+                    rec.hit('cli-output-on-stdout')
+                else:
+                    status, exc = data.cli(argv + ['-o', out])
                 if exc is not None or status != 0:
                     desc = core.describe_exception(exc) if exc else {'status': status}
                     rec.violation('simulate-recession-fails', {'exception': desc, 'observations': obs}, wcase, 'rec_cli')
